@@ -160,6 +160,8 @@ def c_eff(ev, lt, cx=None):
             return UNMATCHABLE            # kicked into / serialised by another broker
     if k in ("save.stale", "formatter.stale"):
         return UNMATCHABLE                # the receiver used something that is not the broker's (any more)
+    if k == "body.inloop":
+        return UNMATCHABLE                # a sync task function was entered on the event loop's thread
     if k == "parse.fail":
         return "FParseFail"
     if k == "unknown":
@@ -1008,6 +1010,27 @@ def count_eq(rep, case, per):
                 rep.count("mw-eq:hook-fired-on-instance-equal-to-an-earlier-one:" + e[1])
 
 
+def settle(r, case, M, lt):
+    """keep away from what the event loop / thread pool decides: duration = timeout (two timers tie) and a
+    sync body under a non-positive timeout (pool thread races the cancel)"""
+    for _ in range(4):
+        t = effective_tmo(case, M, lt)
+        dur = sum(s for s in M["segs"] if s) * 1000
+        if t is not None and t > 0 and dur == t:
+            M["segs"] = M["segs"] + [1]
+        elif t is not None and t <= 0 and M["style"] == "sync":
+            if case.get("executor") == "eager":
+                # the body is entered for sure; it must park (virtual time) so that its end is detached
+                if not M["segs"] or not M["segs"][0]:
+                    M["segs"] = [r.randint(1, 4)] + [s for s in M["segs"] if s]
+                break
+            if case.get("executor") == "lazy":
+                break              # the function never runs
+            M["style"] = "async"   # default pool: genuine thread race - not generated
+        else:
+            break
+
+
 def gen_recv(r, focus="c02", allow_d10=True):
     tbl = gen_labels(r)
     lt_dummy = None
@@ -1062,25 +1085,12 @@ def gen_recv(r, focus="c02", allow_d10=True):
     # sync body under a non-positive timeout (pool thread races the cancel)
     lt = LabelTable(case)
     for M in msgs:
-        for _ in range(4):
-            t = effective_tmo(case, M, lt)
-            dur = sum(s for s in M["segs"] if s) * 1000
-            if t is not None and t > 0 and dur == t:
-                M["segs"] = M["segs"] + [1]
-            elif t is not None and t <= 0 and M["style"] == "sync":
-                if case.get("executor") == "eager":
-                    # the body is entered for sure; it must park (virtual time) so that its end is detached
-                    if not M["segs"] or not M["segs"][0]:
-                        M["segs"] = [r.randint(1, 4)] + [s for s in M["segs"] if s]
-                    break
-                if case.get("executor") == "lazy":
-                    break              # the function never runs
-                M["style"] = "async"   # default pool: genuine thread race - not generated
-            else:
-                break
+        settle(r, case, M, lt)
     del lt_dummy
     gen_exotic(r, case)
     gen_wire(case)
+    gen_rereg(case)
+    gen_life(case)
     return case
 
 
@@ -1202,6 +1212,217 @@ def count_wire(rep, case, M, evs):
                 rep.count("wire:labels_types-does-not-cover-all:stored-result-carries-the-untyped-labels")
         if "timeout" in untyped and any(e[0] == "save.enter" and e[4] == E_TIMEOUT for e in evs):
             rep.count("wire:untyped-timeout-label:enforced(TimeoutError stored)")
+
+
+REREG_P = 0.15     # fraction of the receive cases in which a task NAME is re-registered (another function) between two messages
+REREG_SIG = [None, None, None, "extra", "kwonly", "annot", "varkw"]
+REREG_VIA = [None, None, "decorator", "decorator_labels"]
+
+
+def gen_rereg(case):
+    """task RE-REGISTRATION between messages handled by one long-lived Receiver (driver: make_task / run_recv.one).  Until now
+    every message had a task name of its own, registered once before the first message: "the function behind a name" was a
+    constant of the run.  A group = an owner message j (a known task t<j>, or - one group in seven - an UNKNOWN name nope<j>
+    whose message is dropped) and 1-3 followers i with M["name_of"] = j: follower i arrives strictly later (virtual time)
+    than its predecessor, and at that moment the application registers follower i's function under the owner's name -
+    broker.register_task / @broker.task(task_name=..) again (dynamic tasks, hot reload, a module declaring the task a second
+    time) - then delivers message i.  The predecessor's execution may still be under way.  What differs between the
+    functions registered under one name: sync <-> async (two thirds of the followers are of the OTHER kind than their
+    predecessor), body / outcome / durations / timeout label (each message keeps its own), the parameter list (M["sig"]:
+    an extra defaulted parameter, a keyword-only one, **options, annotations) and the way of registering (M["reg_via"]).
+    What does not: the declared dependency - the functions of one group share one dependency callable (see notes/C07.md:
+    the receiver keeps signature, type hints and dependency graph per task NAME; a function with other dependencies under
+    a known name is a finding of its own).  Some followers are NEW messages (cases with few messages get a group too).
+    Statement-wise nothing new: message i is executed by the function registered under its name when it is delivered -
+    its own - so the oracles and the model's configuration of message i are what they were.
+    The random stream of gen_recv is not touched (own generator, seeded with the case built so far)."""
+    rw = random.Random(zlib.crc32(("rereg" + json.dumps(case, sort_keys=True)).encode()))
+    if rw.random() >= REREG_P:
+        return
+    msgs = case["msgs"]
+    oks = [i for i, M in enumerate(msgs) if M["kind"] == "ok"]
+    unk = [i for i, M in enumerate(msgs) if M["kind"] == "unknown"]
+    if not oks:
+        return
+    owner = rw.choice(unk) if unk and rw.random() < .3 else rw.choice(oks)
+    n = rw.choice([1, 1, 2, 2, 3])
+    others = [i for i in oks if i != owner]
+    followers = rw.sample(others, min(len(others), n))
+    used = {M["id"] for M in msgs}
+    while len(msgs) < 6 and (len(followers) < n and (not followers or rw.random() < .5)):
+        # a new message: a copy of a valid one with an id, outcome and body of its own
+        M = json.loads(json.dumps(msgs[rw.choice(oks)]))
+        for k in ("raise_err", "name_of", "wall"):
+            M.pop(k, None)
+        free = [x for x in range(10) if x not in used] or [M["id"]]
+        M["id"] = rw.choice(free)
+        used.add(M["id"])
+        M["out"] = {"ret": rw.randrange(10)} if rw.random() < .5 else {"raise": rw.choice([0, 1, 2, 3, 3, 4, 5, 6, 7])}
+        M["segs"] = rw.choice([[], [rw.randint(1, 6)], [rw.randint(1, 5), rw.randint(1, 5)]])
+        M["new"] = True
+        msgs.append(M)
+        followers.append(len(msgs) - 1)
+    if not followers:
+        return
+    rw.shuffle(followers)
+    lt = LabelTable(case)
+    prev = msgs[owner]
+    head = prev if prev["kind"] == "ok" else None          # the first function registered under the name
+    for i in followers:
+        M = msgs[i]
+        M["name_of"] = owner
+        M["arrive"] = (prev.get("arrive") or 0) + rw.choice([1, 1, 2, 3, 5, 8, 15])
+        if head is not None:
+            if rw.random() < .67:
+                other = "sync" if prev["style"] == "async" else "async"
+                if not (other == "sync" and M["out"].get("raise") == 8):     # (finding D10 is keyed on the plain scenario)
+                    M["style"] = other
+            for k in ("dep", "dep_async", "dep_susp", "dep_x"):
+                if k in head:
+                    M[k] = json.loads(json.dumps(head[k]))
+                else:
+                    M.pop(k, None)
+        if M["style"] == "sync":
+            M["segs"] = [x for x in M["segs"] if x]
+        sig = rw.choice(REREG_SIG)
+        if sig:
+            M["sig"] = sig
+        via = rw.choice(REREG_VIA)
+        if via:
+            M["reg_via"] = via
+        settle(rw, case, M, lt)
+        if head is None:
+            head = M
+        prev = M
+
+
+def rereg_groups(case):
+    """{owner: [followers in arrival order]}"""
+    g = {}
+    for i, M in enumerate(case["msgs"]):
+        if M.get("name_of") is not None:
+            g.setdefault(M["name_of"], []).append(i)
+    for j in g:
+        g[j].sort(key=lambda i: case["msgs"][i].get("arrive") or 0)
+    return g
+
+
+def count_rereg(rep, case, per):
+    g = rereg_groups(case)
+    if not g:
+        rep.count("task-name:registered-once(before the first message)")
+        return
+    rep.count("task-name:re-registered-between-messages:case")
+    msgs = case["msgs"]
+    for j, fs in g.items():
+        rep.count("re-registration:functions-under-one-name:%d" % (len(fs) + (msgs[j]["kind"] == "ok")))
+        prev = msgs[j] if msgs[j]["kind"] == "ok" else None
+        for i in fs:
+            M, evs = msgs[i], per[i]
+            if prev is None:
+                rep.count("re-registration:name-was-unknown(its first message was dropped),then-registered:" + M["style"])
+            else:
+                rep.count("re-registration:%s->%s" % (prev["style"], M["style"]))
+            rep.count("re-registration:parameter-list:" + (M.get("sig") or "same"))
+            rep.count("re-registration:via:" + (M.get("reg_via") or "register_task"))
+            rep.count("re-registration:dependency:" + M["dep"])
+            if M.get("new"):
+                rep.count("re-registration:message-added-to-the-case")
+            names = {e[0] for e in evs}
+            if "body.start" in names:
+                rep.count("re-registration:new-function-ran")
+            for e in evs:
+                if e[0] == "save.enter":
+                    rep.count("re-registration:result-stored:" + ("is_err" if e[2] else "returned"))
+                    if e[4] == E_TIMEOUT and M["style"] == "async" and "body.start" in names:
+                        rep.count("re-registration:timeout-label-enforced-on-re-registered-async-function")
+            if "save.enter" not in names and "done" in names:
+                rep.count("re-registration:no-result-outcome")
+            prev = M
+
+
+LIFE_P = 0.2       # fraction of the cases (receive and send) with startup() / shutdown() calls on the broker object(s)
+LIFE_PRE = [["startup"], ["startup"], ["startup", "shutdown", "startup"], ["startup", "shutdown", "startup"],
+            ["startup", "shutdown", "startup"], ["startup", "cycle"], ["startup", "shutdown"], ["shutdown"], ["shutdown", "startup"],
+            ["startup", "startup"], ["startup", "cycle", "cycle"], ["startup", "shutdown", "shutdown", "startup"],
+            ["startup", "cycle", "cycle", "cycle"], []]
+LIFE_MID = ["shutdown", "shutdown", "shutdown", "startup", "cycle"]
+
+
+def gen_life(case):
+    """the LIFE CYCLE of the broker object (driver: life_ops / life_task).  Until now the broker of a pipeline case was never
+    started nor stopped (the WORKER_STARTUP late-binding cases: started once): its middleware stack was only ever touched by
+    add_middlewares.  case["life"]:
+      cls       plain: a minimal AsyncBroker subclass with scripted kick / listen (startup / shutdown are the base class's) |
+                super: a subclass whose startup() / shutdown() do their own work around super() - like third-party brokers
+      pre       calls made, one after the other, before the first message / send: startup; startup, shutdown, startup (a
+                module-level broker re-used by the next application lifespan / test case); only shutdown; startup twice; ...
+                (receive: one list; send: one list per broker)
+      at        calls made WHILE messages are processed / sent: [[ms, op]] (send: [[ms, broker, op]]), op = shutdown |
+                startup | cycle (shutdown, then startup) - a shutdown in the middle of an execution is what a worker does
+                when wait_tasks_timeout elapsed
+      mw_hooks  per middleware None | sync | async: its class also overrides startup / shutdown (async: takes 1 ms)
+    send chains: S["op"]["life"] = calls made on the kicker's current broker between two sends on one kicker.
+    None of this appears in the statement: whatever the life cycle did, every hook is due once, in REGISTRATION order."""
+    rw = random.Random(zlib.crc32(("life" + json.dumps(case, sort_keys=True)).encode()))
+    if rw.random() >= LIFE_P:
+        return
+    life = dict(cls=rw.choice(["plain", "plain", "super"]))
+    if case["type"] == "recv":
+        life["pre"] = list(rw.choice(LIFE_PRE))
+        life["at"] = sorted([[rw.randint(0, 12), rw.choice(LIFE_MID)] for _ in range(rw.choice([0, 1, 1, 2, 3]))],
+                            key=lambda x: x[0])
+        life["mw_hooks"] = [rw.choice([None, None, "sync", "async"]) for _ in case["mws"]]
+        if not life["pre"] and not life["at"]:
+            life["at"] = [[rw.randint(0, 6), "shutdown"]]
+    else:
+        stacks = [case["mws"]] + list(case.get("brokers") or [])
+        life["pre"] = [list(rw.choice(LIFE_PRE)) for _ in stacks]
+        life["at"] = sorted([[rw.randint(0, 8), rw.randrange(len(stacks)), rw.choice(LIFE_MID)]
+                             for _ in range(rw.choice([0, 0, 1, 1, 2]))], key=lambda x: x[0])
+        life["mw_hooks"] = [[rw.choice([None, None, "sync", "async"]) for _ in st] for st in stacks]
+        for S in case["sends"]:
+            if S.get("op") is not None and rw.random() < .5:
+                S["op"]["life"] = list(rw.choice([["shutdown", "startup"], ["cycle"], ["shutdown"], ["startup"],
+                                                  ["startup", "shutdown", "startup"], ["cycle", "cycle"]]))
+    case["life"] = life
+
+
+def n_shutdowns(ops):
+    return sum(1 if o == "shutdown" else 1 if o == "cycle" else 0 for o in ops or [])
+
+
+def count_life(rep, case, obs):
+    life = case.get("life")
+    if not life:
+        rep.count("broker-life-cycle:none(never started nor stopped)" if not (case.get("late") or {}).get("style") == "startup"
+                  else "broker-life-cycle:none(started once by the late-binding case)")
+        return
+    rep.count("broker-life-cycle:case:" + case["type"])
+    rep.count("broker-life-cycle:class:" + ("AsyncBroker-subclass(base startup/shutdown)" if life["cls"] == "plain" else
+                                           "subclass-overriding-startup/shutdown(calls super)"))
+    pres = [life["pre"]] if case["type"] == "recv" else life["pre"]
+    for ops in pres:
+        rep.count("broker-life-cycle:before-first-message:" + ("-".join(ops) or "nothing"))
+        k = n_shutdowns(ops)
+        rep.count("broker-life-cycle:shutdowns-before-first-message:%s" % ("0" if not k else "odd" if k % 2 else "even"))
+    for x in life.get("at") or []:
+        rep.count("broker-life-cycle:while-messages-are-under-way:" + x[-1])
+    for S in case.get("sends") or []:
+        if (S.get("op") or {}).get("life"):
+            rep.count("broker-life-cycle:between-two-sends-on-one-kicker:" + "-".join(S["op"]["life"]))
+    hooks = life["mw_hooks"] if case["type"] == "recv" else [h for st in life["mw_hooks"] for h in st]
+    for h in hooks:
+        rep.count("broker-life-cycle:middleware-startup/shutdown-hooks:" + (h or "not-overridden"))
+    stacks = [case["mws"]] + list(case.get("brokers") or [])
+    if any(len([s for s in st if n in own_hooks(s)]) >= 2 for st in stacks for n in HOOKS_ALL):
+        rep.count("broker-life-cycle:stack-has->=2-middlewares-overriding-one-hook")
+    for e in obs.get("life") or []:
+        if e[0] == "broker.shutdown.begin" and len(e) > 2 and case["type"] == "recv":
+            rep.count("broker-life-cycle:shutdown()-called-while-%s" % ("no-message-is-executing" if not e[2] else
+                                                                         "a-message-is-executing"))
+        if e[0] in ("mw.startup", "mw.shutdown"):
+            rep.count("broker-life-cycle:middleware-" + e[0][3:] + "-hook-ran")
 
 
 EXC_P = 0.10       # fraction of the raising task bodies whose exception is not a plain instance of a class of the table
@@ -1387,6 +1608,7 @@ def gen_send(r):
                                                  "kick_fail_sub", "kick_fail_send"])))
     if r.random() < CHAIN_P:
         gen_chains(r, case)
+    gen_life(case)
     return case
 
 
@@ -1716,8 +1938,10 @@ def explore(ctx, rep, pid, cases, label, oracles, nontrivial):
         f = Failer(rep, pid, c)
         if stray:
             f("events outside any message's task", {}, stray)
+        count_life(rep, c, o)
         if c["type"] == "recv":
             count_recv(rep, c, per, late)
+            count_rereg(rep, c, per)
             for orc in oracles:
                 orc(c, per, late, f)
         else:
